@@ -35,6 +35,12 @@ template <class Algo> struct AlgoHooks {
 
 template <class T> struct IsVoidData : std::is_same<T, void_data> {};
 
+// defaults shared by every configuration: how the prototype kernel of the executor is made
+struct CfgCommon {
+    static constexpr bool kernelCtorOnly = false;
+    template <class PK, class Conf> static PK make(const Conf& c) { return PK(c); }
+};
+
 template <class CellGroups>
 void addCellGroups(TreeView& v, int tree, int level, CellGroups& groups) {
     int g = 0;
@@ -164,8 +170,11 @@ public:
     }
     void destroyTree() override { tree.reset(); tv = TreeView(); }
     void makeAlgo() override {
-        if (sc.ctorWithKernel) { PK proto(*conf); algo.reset(new Algo(*conf, proto, sc.upper)); }
-        else algo.reset(AlgoHooks<Algo>::create(*conf, sc.upper));
+        if constexpr (Cfg::kernelCtorOnly) { PK proto = Cfg::template make<PK>(*conf); algo.reset(new Algo(*conf, proto, sc.upper)); }
+        else {
+            if (sc.ctorWithKernel) { PK proto = Cfg::template make<PK>(*conf); algo.reset(new Algo(*conf, proto, sc.upper)); }
+            else algo.reset(AlgoHooks<Algo>::create(*conf, sc.upper));
+        }
         if constexpr (Cfg::periodic && !Tsm) { if (sc.topLevels >= -1) top.reset(new Top(*conf, sc.topLevels)); }
     }
     void destroyAlgo() override { algo.reset(); top.reset(); }
